@@ -196,6 +196,9 @@ def process_unit(unit, outdir, rlimit):
         res['wall_s'] = time.time() - t0
         return res
     res['report'] = report
+    for pm in report.get('pin_mismatch', []):
+        res['status'] = 'undecided'
+        res['undecided'].append('extract: %s' % pm)
     proved_somewhere = {dir_name(d).split('::')[-1] for d in all_directives()}
     res['trusted_scan'] = [t for t in scan_trusted(path) if not (t.startswith('assumed contract (external_body fn) ') and t.split()[-1] in proved_somewhere)]
     src_lines = open(path).read().split('\n')
@@ -617,7 +620,7 @@ def main(argv):
             if prop not in w.get('properties', []) or os.path.relpath(wp, VERIF) in known_w:
                 continue
             # only scripts about a function that is among the undecided ones
-            if w.get('function', '').split('::')[-1] not in und_fns:
+            if not any(fn.split('::')[-1] in und_fns for fn in [w.get('function', '')] + w.get('functions', []) if fn):
                 continue
             w['path'] = wp
             rr = run_replay(w)
@@ -741,7 +744,7 @@ def find_witnesses(prop, violations):
     for p in sorted(glob.glob(os.path.join(wd, '*.json'))):
         w = json.load(open(p))
         for u, e in violations:
-            if prop in w.get('properties', []) and w.get('function') == e['fn'] and (
+            if prop in w.get('properties', []) and e['fn'] in ([w.get('function')] + w.get('functions', [])) and (
                     not w.get('kind') or w['kind'] in e['kind']) and (
                     not w.get('expr') or re.sub(r'\s+', '', w['expr']) in re.sub(r'\s+', '', e['site'] + '|' + e['clause'])):
                 w['path'] = p
@@ -758,7 +761,7 @@ def find_witness(prop, violations):
     for p in sorted(glob.glob(os.path.join(wd, '*.json'))):
         w = json.load(open(p))
         for u, e in violations:
-            if prop in w.get('properties', []) and w.get('function') == e['fn'] and (
+            if prop in w.get('properties', []) and e['fn'] in ([w.get('function')] + w.get('functions', [])) and (
                     not w.get('kind') or w['kind'] in e['kind']) and (
                     not w.get('expr') or re.sub(r'\s+', '', w['expr']) in re.sub(r'\s+', '', e['site'] + '|' + e['clause'])):
                 w['path'] = p
